@@ -654,6 +654,8 @@ def build():
 def run(chk):
     from translator import gen_limits
     gen_limits.main([])          # Gen/Limits.lean: constants and limits read from the current source
+    chk.trusted.append("translator/gen_limits.py (constants / limits of the source -> Gen/Limits.lean: compiled probe + "
+                       "preprocessed function bodies at named anchors; tied to the model numerals by Props/Limits/C10.lean)")
     problems = chk.prove(MODULES, AUDIT, want_leanchecker=(chk.tier == "thorough"))
     exe, err = build()
     if exe is None:
